@@ -29,6 +29,7 @@ IFACE = [
     "def generator_function(start_value, step_value=1):\n    current = start_value\n    while current < 3:\n        received = yield current\n        current += step_value\nprint(list(generator_function(step_value=1, start_value=0)))\n",
     "async def coroutine_function(first_argument, *, keyword_only_argument=None):\n    return first_argument, keyword_only_argument\nimport asyncio\nprint(asyncio.run(coroutine_function(1, keyword_only_argument=2)))\n",
     "match {'key': 1, 'other': 2}:\n    case {'key': captured_value, **remaining_items}:\n        print(captured_value, remaining_items)\nclass Pattern:\n    __match_args__ = ('alpha_attr', 'beta_attr')\n    def __init__(self, alpha_attr, beta_attr):\n        self.alpha_attr = alpha_attr\n        self.beta_attr = beta_attr\nmatch Pattern(1, 2):\n    case Pattern(alpha_attr=first_capture, beta_attr=second_capture):\n        print(first_capture, second_capture)\n",
+    "def reads_injected():\n    global injected_from_outside\n    try:\n        return injected_from_outside, injected_from_outside, injected_from_outside\n    except NameError:\n        return 'not injected'\ndef also_reads():\n    return injected_from_outside\nprint(reads_injected())\n",
     "global_counter = 0\ndef increment(amount=1):\n    global global_counter\n    global_counter += amount\n    return global_counter\nprint(increment(amount=2), global_counter)\ndef shadow(len, list=None):\n    return len, list\nprint(shadow(len=1, list=2))\n",
 ]
 
@@ -62,8 +63,8 @@ def gen_cases(tier, seed):
     for tag, s in seeds.all_seeds():
         for o in optsets(2 if tier == 'quick' else 8):
             cases.append({'shape': 'seed:' + tag, 'src': s, 'opts': o})
-    sc = list(scopegen.enumerate_cases(max_stmt_depth=2, expr_depth=(0, 1), sample=1500 if tier == 'quick' else 30000, seed=seed + 1)) + \
-        list(scopegen.sampled_cases(seed + 1, 600 if tier == 'quick' else 10000))
+    sc = (list(scopegen.stratified_cases(seed + 1))[::2] if tier == 'quick' else list(scopegen.enumerate_cases(max_stmt_depth=2, expr_depth=(0, 1), sample=40000, seed=seed + 1))) + \
+        list(scopegen.sampled_cases(seed + 1, 400 if tier == 'quick' else 10000))
     for c in sc:
         for o in optsets(1):
             cases.append({'shape': c['shape'], 'src': c['src'], 'opts': o})
